@@ -164,6 +164,12 @@ theorem bin_name_unregistered (tns : Text) (ms : List Method) (r : Routes) (hb :
     cases hd : decodeName bs with
     | none => simp [hd] at hs
     | some n => simp only [hd] at hs; rw [serve_eq facts11 (by decide)] at hs; split at hs <;> cases hs
+  | wsdl =>
+    exfalso
+    rw [serveWire_bin facts11 (by decide)] at hs
+    cases hd : decodeName bs with
+    | none => simp [hd] at hs
+    | some n => simp only [hd] at hs; rw [serve_eq facts11 (by decide)] at hs; split at hs <;> cases hs
 
 /-- the UTF-8 encoding of a registered name, sent as `bin`, runs exactly what the text form runs -/
 theorem bin_name_registered (tns : Text) (ms : List Method) (r : Routes) (hb : build facts11 tns ms = .ok r)
@@ -268,6 +274,50 @@ theorem pattern_runs (tns : Text) (ms : List Method) (r : Routes) (hb : build fa
       serve facts11 r tns (httpRequest r verb path) = .ran (p.efid :: tl.map (·.fid)) :=
   Dispatch.pattern_runs facts11 (by decide) (by decide) (by decide) (by decide) tns ms r hb hn verb path p hc
 
+/-! ### the transport's decision before dispatch: WSDL request or RPC -/
+
+/-- a request is taken for a request for the interface document exactly when its verb upper-cases to GET and
+    either the first name of the query string is (case-insensitively) `wsdl` or the path ends with `.wsdl` —
+    a method whose name merely ends in the letters `wsdl` is not shadowed -/
+theorem wsdl_request_iff (verb path query : Text) :
+    isWsdlRequest facts11 verb path query = true ↔
+      verb.map asciiUpper = "GET".toList ∧
+      ((qsFirstName query).map asciiLower = "wsdl".toList ∨ ∃ p, path = p ++ ".wsdl".toList) :=
+  isWsdlRequest_good facts11 (by decide) (by decide) (by decide) verb path query
+
+/-- a WSDL request runs no user function -/
+theorem wsdl_request_runs_nothing (r : Routes) (tns verb path query : Text)
+    (h : isWsdlRequest facts11 verb path query = true) : serveHttp facts11 r tns verb path query = .wsdl := by
+  simp [serveHttp, h]
+
+/-- URL-path naming, complete: a request line that is not a genuine WSDL request and is answered by no
+    HttpPattern, whose last path segment is a registered primary method, runs that method and its
+    auxiliaries — whatever the method is called (`wsdl`, `refresh_wsdl`, …) -/
+theorem url_path_registered_runs (tns : Text) (ms : List Method) (r : Routes) (hb : build facts11 tns ms = .ok r)
+    (m : Method) (hm : m ∈ ms) (ha : m.aux = false) (hn : '/' ∉ m.name) (verb pre query : Text)
+    (hw : isWsdlRequest facts11 verb (pre ++ '/' :: m.name) query = false)
+    (hp : ∀ p ∈ httpPatterns r, p.matches verb (pre ++ '/' :: m.name) = false) :
+    serveHttp facts11 r tns verb (pre ++ '/' :: m.name) query =
+      .ran (m.fid :: (auxs tns ms (routeKey tns m)).map (·.fid)) := by
+  rw [serveHttp_rpc facts11 r tns verb _ query hw]
+  have : httpRequest r verb (pre ++ '/' :: m.name) = .path (pre ++ '/' :: m.name) := by
+    simp [httpRequest, choose_none_iff.mpr hp]
+  rw [this]
+  exact registered_runs tns ms r hb m hm ha _ ((naming tns m.name).2.2.2.2 pre hn)
+
+/-- … and an unregistered last segment gets the not-found fault (404), never the interface document -/
+theorem url_path_unregistered_not_found (tns : Text) (ms : List Method) (r : Routes)
+    (hb : build facts11 tns ms = .ok r) (n verb pre query : Text) (hn : '/' ∉ n)
+    (hu : ∀ m ∈ ms, m.name ≠ n)
+    (hw : isWsdlRequest facts11 verb (pre ++ '/' :: n) query = false)
+    (hp : ∀ p ∈ httpPatterns r, p.matches verb (pre ++ '/' :: n) = false) :
+    serveHttp facts11 r tns verb (pre ++ '/' :: n) query = .notFound := by
+  rw [serveHttp_rpc facts11 r tns verb _ query hw]
+  have : httpRequest r verb (pre ++ '/' :: n) = .path (pre ++ '/' :: n) := by
+    simp [httpRequest, choose_none_iff.mpr hp]
+  rw [this]
+  exact (reached_iff_registered tns ms r hb _ n ((naming tns n).2.2.2.2 pre hn)).mpr hu
+
 /-- FULL statement (needs `facts11.patternDup = .reject`, which the current tree does not have):
     the chosen pattern never depends on the order in which patterns were collected.
     Proved part: it does not whenever no two patterns that match the request share an address
@@ -334,5 +384,12 @@ example : (match build facts11 "tns".toList [mX, mA, mB] with
                 serveWire facts11 r "tns".toList .rpcName (.bin [0x66, 0x6F, 0x6F, 0xFF]),
                 serveWire facts11 r "tns".toList .key (.bin [0x66, 0x6F, 0x6F, 0x00]))
     | .error _ => (.stuck, .stuck, .stuck)) = (.ran [1, 3], .clientFault, .notFound) := by decide
+
+example : isWsdlRequest facts11 "GET".toList "/svc/refresh_wsdl".toList [] = false ∧
+          isWsdlRequest facts11 "GET".toList "/svc/wsdl".toList [] = false ∧
+          isWsdlRequest facts11 "GET".toList "/svc/xwsdl".toList "a=1&wsdl".toList = false ∧
+          isWsdlRequest facts11 "get".toList "/svc.wsdl".toList [] = true ∧
+          isWsdlRequest facts11 "GET".toList "/svc/".toList "WSDL=1&x=2".toList = true ∧
+          isWsdlRequest facts11 "HEAD".toList "/svc.wsdl".toList "wsdl".toList = false := by decide
 
 end SpyneModel.Props.C11
